@@ -280,29 +280,51 @@ class LinearPolynomial(BaseDeferred):
         return LinearPolynomial[int]({key: -value for key, value in self.coeffs.items()}, -self.constant_term)
 
     def _wait(self):
-        new_coeffs = []
-        new_constant_term = self.constant_term
+        # Substitute the variables by their values until only those that are being
+        # awaited right now (e.g. the link base while it is computed) are left:
+        # these are kept symbolic so that they can cancel out
+        seen = []
+        passes = 0
+        while True:
+            new_coeffs = []
+            new_constant_term = self.constant_term
+            progress = False
 
-        for key, value in self.coeffs.items():
-            # A variable that is being awaited right now (e.g. the link base while it
-            # is computed) is kept symbolic so that it can cancel out
-            if not key.is_awaiting:
-                with try_compute:
-                    key = key.wait()
-            if isinstance(key, BaseDeferred):
-                key = key.get_current_best_estimate()
+            for key, value in self.coeffs.items():
+                resolved = key
+                if not key.is_awaiting:
+                    if key not in seen:
+                        seen.append(key)
+                    if try_compute.depth > 0:
+                        with try_compute:
+                            resolved = key.wait()
+                    else:
+                        # Everything is known by now (e.g. which file a symbol comes
+                        # from), the value itself may still be symbolic
+                        resolved = key.wait()
+                if isinstance(resolved, BaseDeferred):
+                    resolved = resolved.get_current_best_estimate()
+                if resolved is not key:
+                    progress = True
 
-            if isinstance(key, LinearPolynomial):
-                new_coeffs += [(key1, value1 * value) for key1, value1 in key.coeffs.items()]
-                new_constant_term += key.constant_term * value
-            elif isinstance(key, BaseDeferred):
-                new_coeffs.append((key, value))
-            else:
-                new_constant_term += key * value
+                if isinstance(resolved, LinearPolynomial):
+                    new_coeffs += [(key1, value1 * value) for key1, value1 in resolved.coeffs.items()]
+                    new_constant_term += resolved.constant_term * value
+                elif isinstance(resolved, BaseDeferred):
+                    new_coeffs.append((resolved, value))
+                else:
+                    new_constant_term += resolved * value
 
-        new_value = LinearPolynomial[int](new_coeffs, new_constant_term)
-        self.coeffs = new_value.coeffs
-        self.constant_term = new_value.constant_term
+            new_value = LinearPolynomial[int](new_coeffs, new_constant_term)
+            self.coeffs = new_value.coeffs
+            self.constant_term = new_value.constant_term
+
+            passes += 1
+            if not progress or all(key.is_awaiting for key in self.coeffs):
+                break
+            if passes > len(seen) + 1:
+                # Keeps expanding without getting anywhere: x = x + 1
+                raise DeferredCycle()
 
         return sum(key.wait() * value for key, value in self.coeffs.items()) + self.constant_term
 
